@@ -49,6 +49,7 @@ Clause(e) ==
          IF CatValid(t, u) \/ t.sp = <<>> \/ u.sp = <<>> \/ Failed(e) THEN "ok" ELSE "cat-accepted-different-spaces"
     [] e.a = "cat" -> IF ~CatValid(t, Tab(e.ins[2])) THEN "ok" ELSE IF Failed(e) THEN "cat-failed" ELSE IF ~TabEq(Tab(e.out), Cat(t, Tab(e.ins[2]))) THEN "cat" ELSE "ok"
     [] e.a = "repeat" -> IF Len(t.sh) # 1 THEN "ok" ELSE IF Failed(e) THEN "repeat-failed" ELSE IF ~TabEq(Tab(e.out), Repeat(t, e.n)) THEN "repeat" ELSE "ok"
+    [] e.a = "repeat2" -> IF Len(t.sh) # 2 THEN "ok" ELSE IF Failed(e) THEN "repeat-failed" ELSE IF ~TabEq(Tab(e.out), Repeat2(t, e.n \div 10, e.n % 10)) THEN "repeat(two batch axes)" ELSE "ok"
     [] e.a = "unsq" -> IF Len(t.sh) # 1 THEN "ok" ELSE IF Failed(e) THEN "unsqueeze-failed" ELSE IF ~TabEq(Tab(e.out), Unsq(t, IF e.n = 0 THEN 0 ELSE 1)) THEN "unsqueeze" ELSE "ok"
     \* (quotients are judged where every observed cell divides, powers for exponent cells 0..2 and small bases: exact in float64)
     [] e.a = "arith" -> IF ~ArithValid(t, Tab(e.ins[2])) \/ ~ArithExact(t, Tab(e.ins[2]), e.opname) THEN "ok" ELSE IF Failed(e) THEN "arith-failed" ELSE IF ~TabEq(Tab(e.out), Arith(t, Tab(e.ins[2]), e.opname)) THEN "arith" ELSE "ok"
